@@ -200,6 +200,8 @@ impl DebuggerContext {
             .as_ref()
             .ok_or(DebuggerError::GrammarNotOpened)?;
         let mut breakpoints = self.breakpoints.lock().expect(POISONED_LOCK_PANIC);
+        #[cfg(pest_parser_pest_verif)]
+        crate::verif::point("BpHeld");
         for rule in ast {
             breakpoints.insert(rule.name.clone());
         }
@@ -211,6 +213,8 @@ impl DebuggerContext {
     pub fn add_breakpoint(&mut self, rule: String) {
         let mut breakpoints = self.breakpoints.lock().expect(POISONED_LOCK_PANIC);
 
+        #[cfg(pest_parser_pest_verif)]
+        crate::verif::point("BpHeld");
         breakpoints.insert(rule);
     }
 
@@ -218,6 +222,8 @@ impl DebuggerContext {
     pub fn delete_breakpoint(&mut self, rule: &str) {
         let mut breakpoints = self.breakpoints.lock().expect(POISONED_LOCK_PANIC);
 
+        #[cfg(pest_parser_pest_verif)]
+        crate::verif::point("BpHeld");
         breakpoints.remove(rule);
     }
 
@@ -225,6 +231,8 @@ impl DebuggerContext {
     pub fn delete_all_breakpoints(&mut self) {
         let mut breakpoints = self.breakpoints.lock().expect(POISONED_LOCK_PANIC);
 
+        #[cfg(pest_parser_pest_verif)]
+        crate::verif::point("BpHeld");
         breakpoints.clear();
     }
 
